@@ -16,7 +16,8 @@ import (
 // child both turn it into the same reflect.Type.
 //
 // K: a primitive kind name ("bool", "int", ... "string"), "bytes" ([]byte), "iface" (interface{}),
-// "time" (time.Time), "raw" (json.RawMessage), "jsonnumber" (json.Number), "ptr", "slice", "array",
+// "time" (time.Time), "raw" (json.RawMessage), "jsonnumber" (json.Number), "jm" (corpus.JM, a json.Marshaler),
+// "tm" (corpus.TM, an encoding.TextMarshaler), "ptr", "slice", "array",
 // "map" (map[string]E), "struct" (reflect.StructOf of F) or "corpus:<Name>" (a compiled type).
 type TSpec struct {
 	K string  `json:"k"`
@@ -55,6 +56,8 @@ var (
 	tRaw    = reflect.TypeOf(json.RawMessage(nil))
 	tNumber = reflect.TypeOf(json.Number(""))
 	tString = reflect.TypeOf("")
+	tJM     = corpus.JMType
+	tTM     = corpus.TMType
 )
 
 const pkgPath = "verifharness/cmd/c18"
@@ -81,6 +84,10 @@ func (t *TSpec) Type() reflect.Type {
 		return tRaw
 	case "jsonnumber":
 		return tNumber
+	case "jm":
+		return tJM
+	case "tm":
+		return tTM
 	case "ptr":
 		return reflect.PointerTo(t.E.Type())
 	case "slice":
@@ -173,24 +180,73 @@ func (f *FSpec) effectiveName() string {
 	return f.JName
 }
 
-// stClasses lists the jsonschema-tag classes.
+// stClasses lists the jsonschema-tag classes. The "-tight" classes declare a narrow zone that the
+// values of untagged fields never fall into (see populate.go): a constraint that shows up on a field
+// it was not written on is then refuted by that field's ordinary values.
 var stClasses = []string{"description", "description-comma", "title", "required", "enum", "enum-int", "minmax", "minmaxlen",
-	"minmaxitems", "default", "pattern", "format", "unique", "example", "semicolons"}
+	"minmaxitems", "default", "pattern", "format", "unique", "example", "semicolons",
+	"len-tight", "pattern-tight", "minmax-tight", "items-tight"}
+
+// derefT follows the pointer chain of a field type.
+func derefT(t *TSpec) *TSpec {
+	for t.K == "ptr" {
+		t = t.E
+	}
+	return t
+}
+
+func isBytesT(t *TSpec) bool { return t.K == "bytes" || (t.K == "slice" && t.E.K == "uint8") }
+
+// jsonClass names the JSON type of the encoding of a (pointer-free) field type: string | number |
+// bool | array | object | any.
+func jsonClass(t *TSpec) string {
+	switch {
+	case isBytesT(t), t.K == "string", t.K == "time", t.K == "tm":
+		return "string"
+	case isNumericPrim(t.K), t.K == "jsonnumber":
+		return "number"
+	case t.K == "bool":
+		return "bool"
+	case t.K == "iface", t.K == "raw", t.K == "jm":
+		return "any"
+	case t.K == "slice", t.K == "array":
+		return "array"
+	}
+	return "object" // map, struct, compiled types
+}
+
+// flatElems reports whether the element chain of a slice / array type ends in a leaf without passing a
+// struct, a map or a compiled type (the recursion cut never empties such a slice).
+func flatElems(t *TSpec) bool {
+	for cur := t.E; cur != nil; cur = cur.E {
+		if isBytesT(cur) {
+			return true
+		}
+		if cur.K == "struct" || cur.K == "map" || strings.HasPrefix(cur.K, "corpus:") {
+			return false
+		}
+	}
+	return true
+}
 
 // stApplicable reports whether a jsonschema-tag class can sit on a field of this type such that the
-// fully populated value satisfies the declared constraint.
-func stApplicable(st string, t *TSpec) bool {
+// fully populated value satisfies the declared constraint. A keyword that does not apply to the JSON
+// type of the field's encoding (minLength on an object, minimum on a string, ...) constrains nothing
+// and may sit anywhere; where it applies, populate.go builds a value inside the declared zone.
+func stApplicable(st string, ft *TSpec) bool {
+	t := derefT(ft)
+	cl := jsonClass(t)
 	switch st {
-	case "enum", "minmaxlen", "pattern", "format":
-		return t.K == "string"
+	case "enum":
+		return cl == "string" || cl == "any" || cl == "bool"
 	case "enum-int":
-		return t.K == "int" || t.K == "int64" || t.K == "int32"
-	case "minmax":
-		return isNumericPrim(t.K)
-	case "minmaxitems", "unique":
-		return t.K == "slice" && (t.E.K == "int" || t.E.K == "string")
-	case "default":
-		return t.K == "int" || t.K == "string" || t.K == "bool" || t.K == "float64"
+		return cl == "number"
+	case "minmaxitems":
+		return cl != "array" || flatElems(t)
+	case "items-tight":
+		return cl != "array" || (flatElems(t) && (t.K != "array" || t.N == 3))
+	case "unique":
+		return cl != "array" || (t.K == "slice" && (t.E.K == "int" || t.E.K == "string"))
 	}
 	return true
 }
@@ -198,15 +254,22 @@ func stApplicable(st string, t *TSpec) bool {
 // stCarrier returns a field type on which the class can sit.
 func stCarrier(st string) TSpec {
 	switch st {
-	case "enum", "minmaxlen", "pattern", "format":
+	case "enum", "minmaxlen", "pattern", "format", "len-tight", "pattern-tight":
 		return TSpec{K: "string"}
-	case "minmaxitems", "unique":
+	case "minmaxitems", "unique", "items-tight":
 		return TSpec{K: "slice", E: &TSpec{K: "int"}}
 	}
 	return TSpec{K: "int"}
 }
 
-func stTag(st string, t *TSpec) string {
+// the declared zones (populate.go reads them back from the tag text)
+const (
+	tightTimeText = "2031-05-06T07:08:09Z" // the instant of every time.Time field that carries a constraining tag
+)
+
+func stTag(st string, ft *TSpec) string {
+	t := derefT(ft)
+	cl := jsonClass(t)
 	switch st {
 	case "description":
 		return "description=plain words"
@@ -217,6 +280,14 @@ func stTag(st string, t *TSpec) string {
 	case "required":
 		return "required"
 	case "enum":
+		switch {
+		case isBytesT(t):
+			return "enum=QUJD,enum=REVG" // base64 of "ABC", "DEF"
+		case t.K == "time":
+			return "enum=" + tightTimeText
+		case cl == "bool":
+			return "enum=true"
+		}
 		return "enum=salpha,enum=sbeta"
 	case "enum-int":
 		return "enum=7,enum=9"
@@ -225,23 +296,55 @@ func stTag(st string, t *TSpec) string {
 			return "minimum=0,maximum=10000000000000000"
 		}
 		return "minimum=-10000000000000000,maximum=10000000000000000"
+	case "minmax-tight":
+		if t.K == "int8" || t.K == "uint8" {
+			return "minimum=101,maximum=120"
+		}
+		return "minimum=2000,maximum=2001"
 	case "minmaxlen":
 		return "minLength=1,maxLength=200"
+	case "len-tight":
+		switch {
+		case isBytesT(t):
+			return "minLength=12,maxLength=16"
+		case t.K == "time":
+			return "minLength=20,maxLength=20"
+		}
+		return "minLength=7,maxLength=9"
 	case "minmaxitems":
 		return "minItems=1,maxItems=16"
+	case "items-tight":
+		return "minItems=3,maxItems=3"
 	case "default":
-		switch t.K {
-		case "string":
-			return "default=sdflt"
-		case "bool":
+		switch {
+		case cl == "bool":
 			return "default=true"
-		case "float64":
+		case t.K == "float64" || t.K == "float32" || t.K == "jsonnumber":
 			return "default=1.5"
+		case cl == "number":
+			return "default=5"
 		}
-		return "default=5"
+		return "default=sdflt"
 	case "pattern":
+		switch {
+		case isBytesT(t):
+			return "pattern=^[A-Za-z0-9+/=]*$"
+		case t.K == "time":
+			return "pattern=^[0-9]+-"
+		}
 		return "pattern=^s"
+	case "pattern-tight":
+		switch {
+		case isBytesT(t):
+			return "pattern=^QUJD"
+		case t.K == "time":
+			return "pattern=^2031-"
+		}
+		return "pattern=^q[0-9]+$"
 	case "format":
+		if t.K == "time" {
+			return "format=date-time"
+		}
 		return "format=email"
 	case "unique":
 		return "uniqueItems"
@@ -291,6 +394,10 @@ func goString(t *TSpec) string {
 		return "json.RawMessage"
 	case "jsonnumber":
 		return "json.Number"
+	case "jm":
+		return "corpus.JM"
+	case "tm":
+		return "corpus.TM"
 	case "ptr":
 		return "*" + goString(t.E)
 	case "slice":
@@ -337,6 +444,7 @@ var implied = map[string][]string{
 	"reuse":           {"struct"},
 	"st:minmaxitems":  {"slice"},
 	"st:unique":       {"slice"},
+	"st:items-tight":  {"slice"},
 	"nameless":        {"omitempty"},
 	"string-opt-noop": {"slice"},
 }
@@ -765,7 +873,27 @@ func reductions(root *TSpec) []TSpec {
 			out = append(out, c)
 		}
 	}
+	// an edit may have changed the type below a tag: a tag that cannot sit on the new type goes
+	for i := range out {
+		dropInapplicableTags(&out[i])
+	}
 	return out
+}
+
+func dropInapplicableTags(t *TSpec) {
+	if t.E != nil {
+		dropInapplicableTags(t.E)
+	}
+	for i := range t.F {
+		f := &t.F[i]
+		if f.Emb != "" {
+			continue
+		}
+		if f.ST != "" && !stApplicable(f.ST, &f.T) {
+			f.ST = ""
+		}
+		dropInapplicableTags(&f.T)
+	}
 }
 
 // standInKey names the nodes a whole-tree replacement may target: compiled types, time.Time,
